@@ -522,4 +522,20 @@ theorem serviceTypeName_nolocal (s : Str) (hlen : s.length ≤ 256) (h : ¬ ∃ 
   rw [serviceTypeName, h1]
   simp only [Bool.false_eq_true, if_false, if_neg (mt (proto_suffix_iff s).1 h), localT_spec, if_neg h']
 
+/-! ### inversion of the grammar -/
+
+theorem valid_inv {strict : Bool} {s t : Str} (h : Valid strict s t) :
+    (∃ svc tr, tr ∈ protoTrailers ∧ SvcLabel strict svc ∧ s = svc ++ tr ∧ t = svc ++ tr)
+    ∨ (∃ p svc tr, tr ∈ protoTrailers ∧ SvcLabel strict svc ∧ p ≠ [] ∧ PrefixOk p ∧ s = (p ++ '.' :: svc) ++ tr ∧ t = svc ++ tr)
+    ∨ (strict = false ∧ ∃ p, (∀ tr ∈ protoTrailers, ¬ tr <:+ s) ∧ PrefixOk p ∧ s = p ++ localTrailer ∧ t = localType) := by
+  cases h with
+  | service a b => exact Or.inl ⟨_, _, a, b, rfl, rfl⟩
+  | prefixed a b c d => exact Or.inr (Or.inl ⟨_, _, _, a, b, c, d, by simp, rfl⟩)
+  | bareLocal a b c => exact Or.inr (Or.inr ⟨a, _, b, c, rfl, rfl⟩)
+
+theorem split_trailer {a b tr tr' : Str} (h1 : tr ∈ protoTrailers) (h2 : tr' ∈ protoTrailers) (h : a ++ tr = b ++ tr') :
+    a = b ∧ tr = tr' :=
+  List.append_inj' h (by rw [proto_length h1, proto_length h2])
+
+
 end Zc.Name
